@@ -6,7 +6,8 @@ CONSTANTS
  Pages = {0, 1, 2}
  TagDels = {0, 1}
  SubjSel = {"all"}
- Spells = {"dig", "tag", "both"}
+ Spells = {"dig", "tag", "both", "plat"}
+ Dopts = {"check", "man"}
  Script <- NoScript
  SerialPrefix = 0
  ObsPolicy = "any"
